@@ -667,6 +667,7 @@ Definition update (s : dstate) (buf : list Z) : dstate * ures :=
 (* StreamingDecoder::reset *)
 Definition reset_model (s : dstate) : dstate :=
   s <| st := Some (SU32 KSig1 []) |> <| c_type := 0 |> <| c_crc := crc_init |> <| c_remaining := 0 |> <| c_raw := [] |>
+    <| c_cap := CHUNK_BUFFER_SIZE |>      (* raw_bytes.shrink_to(CHUNK_BUFFER_SIZE): the buffer of a new decoder (after the repair) *)
     <| infl := zreset (infl s) |> <| info := None |> <| seq := None |> <| have_idat := false |>
     <| have_iccp := false |> <| ready_idat := true |> <| ready_fdat := false |>.
 
